@@ -4,7 +4,9 @@ import (
 	"encoding/hex"
 	"fmt"
 
+	"github.com/ethereum/go-ethereum/accounts/abi"
 	gethcommon "github.com/ethereum/go-ethereum/common"
+	"github.com/ethereum/go-ethereum/crypto"
 	"math/big"
 	"os"
 	"sort"
@@ -325,7 +327,9 @@ func (m *Monitor) After(g *Gen, line, out string) {
 		w := strings.Fields(line)
 		if len(w) > 0 && w[0] == "hash" {
 			if m.lastHash != "" && g.pair[0] != "" && m.lastHashOp != line {
-				if m.lastHash == out {
+				if m.lastHash == out && !(admissibleEvent(m.lastHashOp) && admissibleEvent(line)) {
+					g.stats["C14:colliding-pair-with-an-inadmissible-event"]++ // the property is about admissible events
+				} else if m.lastHash == out {
 					m.report(g, "collision("+g.pair[0]+","+g.pair[1]+")", fmt.Sprintf("events %q and %q have the same claim identifier %s", m.lastHashOp, line, out))
 				}
 				m.lastHash, m.lastHashOp = "", ""
@@ -366,6 +370,8 @@ func (m *Monitor) After(g *Gen, line, out string) {
 		m.checkC19(g, w, out, b, a)
 	case "C01":
 		m.checkC01(g, w, out, b, a)
+	case "C08":
+		m.checkC08(g, w, out, b, a)
 	case "C03", "C02":
 		m.checkVotes(g, w, out, b, a)
 	case "C09":
@@ -715,6 +721,10 @@ func (m *Monitor) checkC17(g *Gen, w []string, out string, b, a *snapshot) {
 			}
 			m.regBy[chain+"/"+orch] = val
 		}
+	case "confirm":
+		// attribution of confirmations: the orchestrator's message counts for the validator that registered it
+		// (same bookkeeping as C16: refused although that validator's key matches, or stored for somebody else)
+		m.checkC16(g, w, out, b, a)
 	case "vote":
 		if out != "ok" {
 			return
@@ -868,6 +878,26 @@ func (m *Monitor) oracleAfter(g *Gen, w []string, out string) {
 			if !quorum(m.pclaims) {
 				m.report(g, "prices-changed-without-66-percent", fmt.Sprintf("epoch %d: reporters %d", b.epoch, len(m.pclaims)))
 			} else {
+				// every price the bridge depends on (gas/base coins and token denoms) was reported by the quorum itself,
+				// not just by some of the validators that make it up
+				req := []string{"eth", "ethereum/gas", "bnb", "bsc/gas"}
+				for _, t := range m.tokens {
+					req = append(req, t.denom)
+				}
+				for _, name := range req {
+					s := int64(0)
+					for _, c := range m.pclaims {
+						for _, it := range c.items {
+							if it[0] == name {
+								s += power[c.val]
+								break
+							}
+						}
+					}
+					if s*100 < 66*total && strings.Contains(a.prices, name+"=") {
+						m.report(g, "required-price-adopted-from-a-minority", fmt.Sprintf("epoch %d: %q was reported by validators holding %d of %d", b.epoch, name, s, total))
+					}
+				}
 				want := m.medianPrices(m.pclaims, weight)
 				if want != a.prices {
 					cls := "price-not-weighted-median"
@@ -1341,6 +1371,33 @@ func (m *Monitor) checkC04(g *Gen, w []string, out string, b, a *snapshot) {
 				m.terminal[key] = "refunded"
 			default:
 				m.report(g, "transfer-disappeared", fmt.Sprintf("chain %s id %d (%s) vanished during %v", c, id, where, w))
+			}
+		}
+	}
+	// a refund is final: once a transfer has been paid back it is no longer in the pool or in a batch
+	if w[0] == "cancel" && out == "ok" {
+		id, _ := strconv.ParseUint(w[3], 10, 64)
+		if after, _ := liveIDs(a, w[2]); after[id] != "" {
+			m.report(g, "refunded-transfer-still-live", fmt.Sprintf("chain %s id %d was cancelled (refund paid) and is still in the %s", w[2], id, after[id]))
+		}
+	}
+	hashUse := map[string]int{}
+	for _, c := range g.chains {
+		for _, s := range a.pool[c] {
+			hashUse[s.txHash]++
+		}
+		for _, bt := range a.batches[c] {
+			for _, s := range bt.txs {
+				hashUse[s.txHash]++
+			}
+		}
+	}
+	for _, c := range g.chains {
+		for _, s := range a.pool[c] {
+			// (the refund of a chain-to-chain transfer is itself a new transfer under the same hash: only
+			// transfers that existed before this operation are meant)
+			if s.txHash != "" && !strings.HasPrefix(s.txHash, "#") && hashUse[s.txHash] == 1 && a.status[s.txHash] == 4 && b.status[s.txHash] != 4 && s.id <= b.lastSte[c] {
+				m.report(g, "refunded-transfer-still-live", fmt.Sprintf("chain %s id %d: its transaction %s became REFUNDED during %v and the transfer is still in the pool", c, s.id, s.txHash, w))
 			}
 		}
 	}
@@ -2037,15 +2094,18 @@ func (m *Monitor) checkVotes(g *Gen, w []string, out string, b, a *snapshot) {
 // For a checkpoint digest produced by the real code: a signature made with NewEthereumSignature
 // verifies for the signer's address and for no other address or digest.
 func (m *Monitor) checkC07(g *Gen, w []string, out string) {
-	if len(w) == 0 || (w[0] != "ckpt_set" && w[0] != "ckpt_batch") || out == "panic" {
+	if len(w) == 0 || (w[0] != "ckpt_set" && w[0] != "ckpt_batch" && w[0] != "ckpt_call") || out == "panic" {
 		return
+	}
+	if ref, ok := solidityDigest(w); ok && ref != out {
+		m.report(g, "digest-differs-from-contract-encoding("+w[0]+")", fmt.Sprintf("hub %s, keccak256(abi.encode(...)) as Hub2.sol computes it %s, for %.300s", out, ref, strings.Join(w, " ")))
 	}
 	digest, err := hexDecode(out)
 	if err != nil || len(digest) != 32 {
 		m.report(g, "checkpoint-not-32-bytes", out)
 		return
 	}
-	k := ethKeys[g.rng.Intn(len(ethKeys))]
+	k := ethKeys[int(digest[0])%len(ethKeys)]
 	addr := gethcommon.HexToAddress(ethAddrs[indexOfKey(k)])
 	sig, err := types.NewEthereumSignature(digest, k)
 	if err != nil {
@@ -2070,6 +2130,101 @@ func (m *Monitor) checkC07(g *Gen, w []string, out string) {
 	if err := types.ValidateEthereumSignature(digest, s2, addr); err != nil {
 		m.report(g, "v-27-28-form-rejected", err.Error())
 	}
+	// the contract's ecrecover knows v = 27 and 28 only: no other recovery byte may be accepted by the hub
+	for _, v := range []byte{2, 3, 26, 29, 30, 31, 32, 35, 36, 37, 38, 127, 128, 255} {
+		s3 := append([]byte{}, sig...)
+		s3[64] = v
+		if err := types.ValidateEthereumSignature(digest, s3, addr); err == nil {
+			m.report(g, "signature-with-foreign-recovery-byte-accepted", fmt.Sprintf("v=%d accepted for %s; Hub2.verifySig (ecrecover) rejects it", v, addr.Hex()))
+		}
+	}
+}
+
+// solidityDigest recomputes a checkpoint the way Hub2.sol does (makeCheckpoint / submitBatch / submitLogicCall):
+// keccak256(abi.encode(...)) over the Solidity types, independently of the hub's GetCheckpoint.
+func solidityDigest(w []string) (string, bool) {
+	ty := func(s string) abi.Type { t, _ := abi.NewType(s, "", nil); return t }
+	b32 := func(b []byte) [32]byte { var x [32]byte; copy(x[:], b); return x }
+	bigs := func(s string) []*big.Int {
+		l := []*big.Int{}
+		if s == "-" {
+			return l
+		}
+		for _, x := range strings.Split(s, ",") {
+			v, _ := new(big.Int).SetString(x, 10)
+			l = append(l, v)
+		}
+		return l
+	}
+	addrs := func(s string) []gethcommon.Address {
+		l := []gethcommon.Address{}
+		if s == "-" {
+			return l
+		}
+		for _, x := range strings.Split(s, ",") {
+			l = append(l, gethcommon.HexToAddress(x))
+		}
+		return l
+	}
+	u := func(s string) *big.Int { v, _ := new(big.Int).SetString(s, 10); return v }
+	if len(w[1]) > 32 {
+		return "", false
+	}
+	var types_ []string
+	var vals []interface{}
+	switch w[0] {
+	case "ckpt_set":
+		var as []gethcommon.Address
+		var ps []*big.Int
+		as, ps = []gethcommon.Address{}, []*big.Int{}
+		if w[3] != "-" {
+			for _, mbr := range strings.Split(w[3], ",") {
+				p := strings.Split(mbr, ":")
+				as = append(as, gethcommon.HexToAddress(p[0]))
+				ps = append(ps, u(p[1]))
+			}
+		}
+		types_ = []string{"bytes32", "bytes32", "uint256", "address[]", "uint256[]"}
+		vals = []interface{}{b32([]byte(w[1])), b32([]byte("checkpoint")), u(w[2]), as, ps}
+	case "ckpt_batch":
+		am, ds, fs := []*big.Int{}, []gethcommon.Address{}, []*big.Int{}
+		if w[5] != "-" {
+			for _, it := range strings.Split(w[5], ";") {
+				p := strings.Split(it, ":")
+				am = append(am, u(p[0]))
+				ds = append(ds, gethcommon.HexToAddress(p[1]))
+				fs = append(fs, u(p[2]))
+			}
+		}
+		types_ = []string{"bytes32", "bytes32", "uint256[]", "address[]", "uint256[]", "uint256", "address", "uint256"}
+		vals = []interface{}{b32([]byte(w[1])), b32([]byte("transactionBatch")), am, ds, fs, u(w[2]), gethcommon.HexToAddress(w[4]), u(w[3])}
+	case "ckpt_call":
+		hx := func(s string) []byte {
+			if s == "-" {
+				return []byte{}
+			}
+			b, _ := hexDecode(s)
+			return b
+		}
+		scope := hx(w[9])
+		if len(scope) > 32 {
+			scope = scope[:32]
+		}
+		types_ = []string{"bytes32", "bytes32", "uint256[]", "address[]", "uint256[]", "address[]", "address", "bytes", "uint256", "bytes32", "uint256"}
+		vals = []interface{}{b32([]byte(w[1])), b32([]byte("logicCall")), bigs(w[2]), addrs(w[3]), bigs(w[4]), addrs(w[5]),
+			gethcommon.HexToAddress(w[6]), hx(w[7]), u(w[8]), b32(scope), u(w[10])}
+	default:
+		return "", false
+	}
+	var args abi.Arguments
+	for _, t := range types_ {
+		args = append(args, abi.Argument{Type: ty(t)})
+	}
+	enc, err := args.Pack(vals...)
+	if err != nil {
+		return "", false
+	}
+	return fmt.Sprintf("%x", crypto.Keccak256(enc)), true
 }
 
 func hexDecode(s string) ([]byte, error) { return hex.DecodeString(s) }
@@ -2218,6 +2373,28 @@ func diffGenesisSection(what []string, before, after string) []string {
 		return l
 	case "bank":
 		return []string{"bank"}
+	case "oracle":
+		// `oracle epoch=.. prices=.. holders=.. pvotes=.. hvotes=..`
+		f := func(s string) map[string]string {
+			r := map[string]string{}
+			for _, tok := range strings.Fields(s) {
+				if i := strings.Index(tok, "="); i > 0 {
+					r[tok[:i]] = tok[i+1:]
+				}
+			}
+			return r
+		}
+		b, a := f(before), f(after)
+		var l []string
+		for _, k := range [][2]string{{"epoch", "oracle-epoch"}, {"prices", "oracle-prices"}, {"holders", "oracle-holders"}} {
+			if b[k[0]] != a[k[0]] {
+				l = append(l, k[1])
+			}
+		}
+		if b["pvotes"] != a["pvotes"] || b["hvotes"] != a["hvotes"] {
+			l = append(l, "oracle-votes-in-progress")
+		}
+		return l
 	}
 	return []string{sec}
 }
@@ -2233,4 +2410,103 @@ func panicKind(msg string) string {
 		msg = msg[:40]
 	}
 	return strings.ReplaceAll(msg, " ", "-")
+}
+
+// admissibleEvent: does the event of a `hash ...` line pass the stateless validation every claim goes through?
+func admissibleEvent(line string) bool {
+	w := strings.Fields(line)
+	if len(w) < 2 {
+		return false
+	}
+	ev, err := parseEvent(w[1:])
+	if err != nil {
+		return false
+	}
+	for _, c := range []types.ChainID{"ethereum", "minter"} {
+		if ev.Validate(c) == nil {
+			return true
+		}
+	}
+	return false
+}
+
+// ---------------------------------------------------------------- C08 (hub side, closed loop with the compiled contract)
+
+func (m *Monitor) checkC08(g *Gen, w []string, out string, b, a *snapshot) {
+	ev := g.env.evm
+	if ev == nil || w[0] != "world" || len(w) < 2 {
+		return
+	}
+	if ev.failed != "" {
+		m.report(g, "contract-deployment-failed", ev.failed)
+		return
+	}
+	if strings.HasPrefix(w[1], "x:relayset:") || strings.HasPrefix(w[1], "x:relaybatch:") {
+		r := ev.last
+		if !r.known {
+			return
+		}
+		enough := r.validPower > evmThreshold
+		expect := r.nonceOK && r.timeoutOK && !r.badIncluded && enough
+		what := fmt.Sprintf("%s: valid power %d of %d (threshold %d), hub-confirmed %d, nonce ok %v, before timeout %v, all confirmations included %v, stored by hub %v; %s",
+			r.key, r.validPower, r.totalPower, uint64(evmThreshold), r.hubConfirmedPower, r.nonceOK, r.timeoutOK, r.all, r.storedByHub, r.desc)
+		if r.badIncluded {
+			// a confirmation the hub recorded and handed to the relayer does not verify under the contract's scheme
+			m.report(g, "unverifiable-confirmation-recorded", what)
+		}
+		switch {
+		case r.accepted && !enough:
+			m.report(g, "contract-accepted-with-too-little-power", what)
+		case r.accepted && !expect:
+			m.report(g, "contract-accepted-out-of-order-or-late", what)
+		case expect && !r.accepted:
+			m.report(g, "contract-refused-what-more-than-the-threshold-confirmed", what)
+		}
+		// the threshold only means "two thirds" if every emitted signer set is normalised to 2^32
+		if r.all && r.nonceOK && r.timeoutOK && !r.badIncluded && !r.accepted &&
+			3*r.hubConfirmedPower > 2*r.totalPower+3*uint64(len(ev.cur)) && r.hubConfirmedPower == r.validPower {
+			m.report(g, "contract-refuses-two-thirds-of-its-own-signer-set", what)
+		}
+		if r.kind == "batch" && r.accepted && !r.storedByHub {
+			m.report(g, "contract-executed-a-batch-the-hub-had-withdrawn", what)
+		}
+	}
+	if w[1] == "x:settle" {
+		// everything was confirmed, relayed and voted back: the two sides must be in step
+		en, _ := ev.hub.StateLastEventNonce(nil)
+		vn, _ := ev.hub.StateLastValsetNonce(nil)
+		lo := a.lastObs[ev.chain]
+		if lo != ev.polled || en == nil || en.Uint64() != ev.polled {
+			g.stats["C08:settle-skipped(events-not-all-applied)"]++
+			return
+		}
+		g.stats["C08:settle-checked"]++
+		if s := g.env.k.GetLastObservedSignerSetTx(g.env.ctx, types.ChainID(ev.chain)); s == nil || s.Nonce != vn.Uint64() {
+			m.report(g, "signer-set-nonces-out-of-step", fmt.Sprintf("contract valset nonce %s, hub last observed signer set %v", vn, s))
+		}
+		for k := range ev.execd {
+			for _, x := range a.batches[ev.chain] {
+				if batchKey(x.extToken, x.nonce) == k {
+					m.report(g, "executed-batch-still-pending-on-the-hub", k)
+				}
+			}
+		}
+		// every transfer paid out by the contract left the hub for good; nothing the contract never paid is gone
+		paid := big.NewInt(0)
+		for k := range ev.execd {
+			for _, t := range ev.batches[k].Transactions {
+				paid.Add(paid, t.Token.Amount.BigInt())
+				paid.Add(paid, t.Fee.Amount.BigInt())
+			}
+		}
+		max := new(big.Int).Sub(new(big.Int).Lsh(big.NewInt(1), 256), big.NewInt(1))
+		outflow := big.NewInt(0) // paid out minus deposited back, over both tokens
+		for _, t := range ev.toks {
+			bal, _ := t.BalanceOf(nil, ev.hubAddr)
+			outflow.Add(outflow, new(big.Int).Sub(max, bal))
+		}
+		if outflow.Cmp(paid) > 0 {
+			m.report(g, "contract-paid-more-than-the-executed-batches", fmt.Sprintf("net outflow %s, executed batches total %s", outflow, paid))
+		}
+	}
 }
